@@ -406,14 +406,16 @@ impl VarIntEncoder {
         
         // Write deltas
         for i in 1..values.len() {
-            let delta = if values[i] >= values[i-1] {
-                (values[i] - values[i-1]) << 1 // Positive delta, LSB = 0
+            // sign-magnitude delta; the magnitude can need all 64 bits, so the
+            // (magnitude << 1 | sign) value is carried as a 65-bit LEB128 number.
+            // For |delta| < 2^63 the bytes are identical to the previous format.
+            let delta: u128 = if values[i] >= values[i-1] {
+                ((values[i] - values[i-1]) as u128) << 1 // Positive delta, LSB = 0
             } else {
-                ((values[i-1] - values[i]) << 1) | 1 // Negative delta, LSB = 1
+                (((values[i-1] - values[i]) as u128) << 1) | 1 // Negative delta, LSB = 1
             };
             
-            let delta_bytes = self.encode_leb128_u64(delta)?;
-            result.extend_from_slice(&delta_bytes);
+            Self::push_leb128_u128(&mut result, delta);
         }
         
         Ok(result)
@@ -463,16 +465,19 @@ impl VarIntEncoder {
         
         // Read deltas
         for _ in 1..count {
-            let (encoded_delta, delta_bytes) = self.decode_leb128_u64(&data[offset..])?;
+            let (encoded_delta, delta_bytes) = Self::decode_leb128_u128(&data[offset..])?;
             
             let prev_value = result[result.len() - 1];
+            let magnitude = u64::try_from(encoded_delta >> 1)
+                .map_err(|_| ZiporaError::invalid_data("Delta magnitude exceeds 64 bits"))?;
             let next_value = if (encoded_delta & 1) == 0 {
                 // Positive delta
-                prev_value + (encoded_delta >> 1)
+                prev_value.checked_add(magnitude)
             } else {
                 // Negative delta
-                prev_value - (encoded_delta >> 1)
-            };
+                prev_value.checked_sub(magnitude)
+            }
+            .ok_or_else(|| ZiporaError::invalid_data("Delta leaves the u64 range"))?;
             
             result.push(next_value);
             offset += delta_bytes;
@@ -508,6 +513,41 @@ impl VarIntEncoder {
         }
         
         Ok(result)
+    }
+}
+
+// 65-bit LEB128 helpers for the unsigned delta format
+impl VarIntEncoder {
+    fn push_leb128_u128(out: &mut Vec<u8>, mut value: u128) {
+        loop {
+            let mut byte = (value & 0x7F) as u8;
+            value >>= 7;
+            if value != 0 {
+                byte |= 0x80;
+            }
+            out.push(byte);
+            if value == 0 {
+                break;
+            }
+        }
+    }
+    
+    fn decode_leb128_u128(data: &[u8]) -> Result<(u128, usize)> {
+        let mut result = 0u128;
+        let mut shift = 0;
+        
+        for (i, &byte) in data.iter().enumerate() {
+            if shift >= 70 {
+                return Err(ZiporaError::invalid_data("LEB128 overflow"));
+            }
+            result |= ((byte & 0x7F) as u128) << shift;
+            if (byte & 0x80) == 0 {
+                return Ok((result, i + 1));
+            }
+            shift += 7;
+        }
+        
+        Err(ZiporaError::invalid_data("Incomplete LEB128"))
     }
 }
 
